@@ -1,6 +1,6 @@
 # Edited by hand as coverage grows; consumed by mkmanifest.py.
 NOTYET = "not claimed in this revision: the functions this property depends on are not yet under contract (work in progress, see DESIGN.md section 9)"
-for _p in ["C01","C02","C03","C04","C06","C07","C08","C09","C10","C11","C13","C14","C15","C16","C18","C19","C20"]:
+for _p in ["C02","C03","C04","C06","C08","C09","C10","C11","C13","C14","C15","C16","C18","C19","C20"]:
     na(_p, NOTYET)
 na("C12", "tree equality across archive/tar, compress/gzip and the OS has no contract-level statement within reach of a function-modular verifier; the oras-go code in between is almost entirely calls into those libraries (DESIGN.md section 9, C12)")
 
@@ -13,3 +13,12 @@ claim("C05",
   "Unbounded proof on the real verifying reader and its users: VerifyReader keeps its representation invariant (remaining + delivered = descriptor size, remaining >= 0); Verify returns nil only after exactly Size bytes were delivered, EOF was confirmed on the underlying stream and the digest verifier agreed; ReadAll / ioutil.CopyBuffer return nil only for a matched stream; cas.Memory stores a value only after that.",
   "Assumed: contracts of io.LimitedReader, io.TeeReader, io.ReadFull, io.CopyBuffer, go-digest Verifier and sync.Map (specs/std.spec); reading the wrapped stream does not re-enter the VerifyReader (explicit `assume` in Verify); byte contents are tracked by count, not by value; hash functions are opaque. OCI/file store publication steps are covered under C10/C06 as they come under contract.",
   "DESIGN.md section 9 C05")
+
+claim("C07",
+  "Unbounded proof that the in-memory graph keeps its representation invariant (nodes/successors/predecessors mutually consistent, no empty predecessor entry, set objects separate) from any state through index and Remove, that index/Remove change exactly the stated entries, and that Predecessors returns each predecessor of the node exactly once and nothing else.",
+  "Assumed: content addressing (the successor set is a function of the descriptor key: contract of content.Successors, trusted), sync.RWMutex semantics, len(map) counter model, maps not grown while ranged over. Not yet under contract in this revision: IndexAll's goroutines, the stores' calls of Index after Push, reopen (loadIndex) — named in the evidence as outside.",
+  "DESIGN.md section 9 C07")
+claim("C01",
+  "Unbounded proof of the successor filter used by Copy: removeForeignLayers returns exactly the non-foreign elements of its input in order (ghost source-index witness), IsForeignLayer/IsManifest/FromOCI are exact. (Partial: the traversal closure obligations are added as they come under contract.)",
+  "Assumed: Go slice semantics as modelled (append, in-place writes). The concurrent traversal (copyGraph closure), root tagging and the DAG-closure lemma are NOT yet discharged in this revision; the claim is limited to the obligations listed in the evidence.",
+  "DESIGN.md section 9 C01")
